@@ -661,6 +661,22 @@ where
             }
             Some(format!("OK {} {}", show_hex(&buf), len))
         }
+        "encshort" => {
+            // encode into a fixed-size writer of n bytes: the encoder must pass the writer's error on, and a failed call
+            // must not disturb later calls (no state is carried between encodings)
+            let (n, rest) = args.split_first()?;
+            let n: usize = n.parse().ok()?;
+            let w: W = parse_all(rest)?;
+            let mut buf = vec![0u8; n];
+            let res = {
+                let mut wr: &mut [u8] = &mut buf[..];
+                unwrap(&w).consensus_encode(&mut wr)
+            };
+            Some(match res {
+                Ok(len) => format!("OK {}", show_hex(&buf[..len.min(n)])),
+                Err(_) => "ERR".into(),
+            })
+        }
         "rt" => {
             let w: W = parse_all(args)?;
             let orig = show(&w);
@@ -769,7 +785,7 @@ pub fn run(op: &str, args: &[&str]) -> Option<String> {
     if op == "dec_rctbase" || op == "dec_rctprunable" {
         return rct_direct(op, args);
     }
-    if !matches!(op, "dec" | "decs" | "enc" | "rt" | "reser") {
+    if !matches!(op, "dec" | "decs" | "enc" | "rt" | "reser" | "encshort") {
         return None;
     }
     // optional "@..." size table: must equal the real one (the model takes it as a parameter)
